@@ -106,8 +106,16 @@ type Machine struct {
 }
 
 func NewMachine(p *Prog, alpha *Alphabet) *Machine {
-	return &Machine{P: p, Alpha: alpha, Hooks: map[string]HookFn{}, MaxExact: 3, StepLimit: 200000,
+	m := &Machine{P: p, Alpha: alpha, Hooks: map[string]HookFn{}, MaxExact: 3, StepLimit: 200000,
 		live: map[*ssa.Function]*liveInfo{}, fnIdx: map[*ssa.Function]int{}, Stuck: map[string]int{}}
+	if alpha == nil {
+		// exact mode: every pure library function with a model is available
+		installStringModels(m)
+		installFuncModels(m)
+		installUnicodeModels(m)
+		m.Hooks["fmt.Sprintf"] = sprintfModel
+	}
+	return m
 }
 
 func (m *Machine) liveOf(fn *ssa.Function) *liveInfo {
